@@ -36,6 +36,10 @@ type c04W struct {
 	evals   int64
 	scratch []byte
 	staged  int
+	// emptySlots: before the import, every container key of the PAYLOAD that the target does not hold
+	// gets one value added and removed again in the target — same contents, but the slot has a history
+	// (the slice store keeps a nil entry for it, the B-tree store a deleted key)
+	emptySlots bool
 }
 
 // The decoders view container payloads through unsafe casts; a mis-parsed header makes them read — and,
@@ -173,6 +177,24 @@ func c04Import1(w *c04W, kind int, tcs []c04Cont, mapped bool, e *c04Enc, clear 
 		if p := vx.Guard(func() { derr = t.UnmarshalBinary(d) }); p != "" || derr != nil {
 			// the target's own encoding does not decode: a round-trip failure, reported as such
 			return "target-roundtrip", fmt.Sprint("mapped target cannot be built: ", derr, " ", p), "decodes"
+		}
+	}
+	if w.emptySlots {
+		have := map[uint64]bool{}
+		for _, tc := range tcs {
+			have[tc.key] = true
+		}
+		for _, pc := range e.cs {
+			if !have[pc.key] {
+				have[pc.key] = true
+				v := pc.key<<16 | 7
+				if _, err := t.Add(v); err != nil {
+					return "", "", ""
+				}
+				if _, err := t.Remove(v); err != nil {
+					return "", "", ""
+				}
+			}
 		}
 	}
 	wt := c04Want(tcs)
@@ -325,8 +347,11 @@ func c04CheckDecode(w *c04W, e *c04Enc) {
 }
 
 func c04CheckImport(w *c04W, tcs []c04Cont, e *c04Enc, light bool) {
+	defer func() { w.emptySlots = false }()
 	for kind := 0; kind < 2; kind++ {
-		for _, mapped := range []bool{false, true} {
+		for _, tm := range []int{0, 1, 2} { // target: fresh, mapped, fresh with emptied slots at the payload's keys
+			mapped := tm == 1
+			w.emptySlots = tm == 2
 			for _, clear := range []bool{false, true} {
 				for _, rowSize := range []uint64{1, 2} {
 					if light && (mapped || rowSize != 1) {
@@ -349,7 +374,7 @@ func c04CheckImport(w *c04W, tcs []c04Cont, e *c04Enc, light bool) {
 						key = fmt.Sprintf("import format=%s%s", e.format, trig)
 					}
 					w.c.Violate(key, c04Case{Check: "import", Format: e.format, Bitmap: c04Desc(e.cs), Runs: c04RunStr(e.run), Target: c04Desc(tcs),
-						Variant: fmt.Sprintf("%s mapped=%v rowSize=%d", c04KindName[kind], mapped, rowSize)}, got, exp)
+						Variant: fmt.Sprintf("%s mapped=%v emptied-slots=%v rowSize=%d", c04KindName[kind], mapped, w.emptySlots, rowSize)}, got, exp)
 				}
 			}
 		}
@@ -411,7 +436,7 @@ func TestVerif_C04(t *testing.T) {
 	c := vx.NewCheck("C04", "exploration",
 		"full products, each member executed on the real code: (1) every subset of a boundary universe at keys {0,1,65535,65536,2^48-1} and every threshold-family container × encodings {pilosa WriteTo with flags, pilosa unoptimized × forced array/bitmap/run, official without runs, official with every run-container pattern} decoded by UnmarshalBinary into slice and B-tree bitmaps (set, count, flags, input bytes compared before/after, second decode); "+
 			"(2) every assignment of shapes to 1..N containers × every run pattern (official encodings produced by an independent reference encoder written from the format spec); 65,536 containers; bitmaps left by Add;Remove; "+
-			"(3) ImportRoaringBits set|clear of every payload encoding into every target of a family × {slice,btree} × {fresh,mapped} × rowSize {1,2}: resulting set, changed count, per-row deltas, payload bytes. distinct = distinct (bitmap, encoding) pairs")
+			"(3) ImportRoaringBits set|clear of every payload encoding into every target of a family × {slice,btree} × {fresh,mapped,emptied-slots} × rowSize {1,2}: resulting set, changed count, per-row deltas, payload bytes. distinct = distinct (bitmap, encoding) pairs")
 	thorough := c.Thorough()
 	U := []uint16{0, 1, 2, 3, 4, 5, 65534, 65535}
 	if thorough {
@@ -558,7 +583,7 @@ func TestVerif_C04(t *testing.T) {
 				}
 			}
 			if px%17 == 0 {
-				c.Sample("import: payload " + c04Desc(pcs) + " × all formats × set|clear × every target × {slice,btree} × {fresh,mapped} × rowSize{1,2}")
+				c.Sample("import: payload " + c04Desc(pcs) + " × all formats × set|clear × every target × {slice,btree} × {fresh,mapped,emptied-slots} × rowSize{1,2}")
 			}
 			c.Outcome(fmt.Sprintf("import payload containers=%d", len(pcs)))
 			w.flush()
